@@ -99,7 +99,9 @@ def to_text(p: AProg) -> str:
     for im in p.impls:
         params = "<%s>" % ", ".join(_iv(i) for i in range(im.nvars)) if im.nvars else ""
         wc = (" where " + ", ".join(wc_text(p, w, _iv) for w in im.wcs)) if im.wcs else ""
-        vals = " ".join("type A%d = %s;" % (a, ty_text(p, v, _iv)) for a, v in sorted(im.vals.items()))
+        # the impl lists its values in its own order (independent of the trait's declaration order)
+        order = getattr(im, "val_order", None) or sorted(im.vals)
+        vals = " ".join("type A%d = %s;" % (a, ty_text(p, im.vals[a], _iv)) for a in order)
         out.append("impl%s %s for %s%s { %s }" % (params, p.traits[im.trait].name, ty_text(p, im.self_ty, _iv), wc, vals))
     return "\n".join(out)
 
@@ -271,10 +273,11 @@ def gen_program(rng) -> AProg:
     traits, next_a = [], 0
     plain = rng.random() < 0.6
     for j in range(ntr):
-        k = rng.choice([1, 1, 2])
+        k = rng.choice([1, 2, 2, 3])
         assocs = list(range(next_a, next_a + k))
         next_a += k
         bounds = {a: "Mk" for a in assocs if plain and rng.random() < 0.3}
+        rng.shuffle(assocs)
         traits.append(ATrait("Tr%d" % j, assocs, bounds))
     if plain:
         traits.append(ATrait("Mk"))
@@ -347,7 +350,10 @@ def gen_program(rng) -> AProg:
                         pr = ("proj", a2, st)
                         v = pr if rng.random() < 0.6 else ("adt", "W", (pr,))
                 vals[a] = v
-            p.impls.append(AImpl(nv, j, h, wcs, vals))
+            im = AImpl(nv, j, h, wcs, vals)
+            im.val_order = list(vals)
+            rng.shuffle(im.val_order)
+            p.impls.append(im)
     rng.shuffle(p.impls)
     return p
 
@@ -391,4 +397,14 @@ def corpus():
     i_deep = AImpl(1, 0, adt("Pair", adt("W", var(0)), var(0)), [], {0: adt("W", var(0))})
     for order in ([i_same, i_mixed, i_deep], [i_mixed, i_same, i_deep], [i_deep, i_same, i_mixed]):
         out.append(AProg(adts2, tr2, list(order), "corpus-repeated-param"))
+    # an impl that lists its values in another order than the trait declares the associated types
+    adts3 = [("Y", 0), ("Z", 0), ("U32", 0), ("I32", 0), ("F64", 0), ("W", 1)]
+    tr3 = [ATrait("Tr", [0, 1, 2])]
+    i1 = AImpl(0, 0, adt("Y"), [], {0: adt("I32"), 1: adt("U32"), 2: adt("F64")})
+    i1.val_order = [1, 2, 0]
+    i2 = AImpl(0, 0, adt("Z"), [], {0: adt("U32"), 1: adt("I32"), 2: adt("Z")})
+    i2.val_order = [2, 0, 1]
+    i3 = AImpl(1, 0, adt("W", var(0)), [], {0: var(0), 1: adt("W", var(0)), 2: ("proj", 1, var(0))})
+    i3.val_order = [1, 0, 2]
+    out.append(AProg(adts3, tr3, [i1, i2, i3], "corpus-value-order"))
     return out
